@@ -16,13 +16,114 @@ PROFILES = [
 ]
 
 
+LKEYS = ["61", "62", "63", "64", "65", "66", "67", "68"]
+
+
+def layered(g):
+    """prologue: tables with varied key ranges on several levels (narrow newest L0 tables over wide older
+    ones, deeper tables below/above them), every key read back after each compaction"""
+    rng = g.rng
+    t = g.next_tx
+    for rnd in range(rng.randint(3, 7)):
+        lo = rng.randrange(len(LKEYS))
+        hi = rng.randrange(lo, len(LKEYS))
+        g.emit("e2 begin %d rw" % t)
+        for k in LKEYS[lo:hi + 1]:
+            if rng.random() < 0.3:
+                g.emit("e2 del %d %s" % (t, k))
+            else:
+                g.emit("e2 set %d %s %s" % (t, k, g.val()))
+        g.emit("e2 commit %d" % t)
+        t += 1
+        g.emit("e2 flush")
+        if rng.random() < 0.45:
+            g.emit("e2 compact %d" % rng.randint(0, max(0, g.lc - 1)))
+            g.emit("e2 begin %d ro" % t)
+            for k in LKEYS:
+                g.emit("e2 get %d %s" % (t, k))
+            g.emit("e2 scan %d - ~ f" % t)
+            g.emit("e2 drop %d" % t)
+            t += 1
+    g.next_tx = t
+
+
+def stacked(g):
+    """prologue: a deeper table, then an older WIDE and a newer NARROW level-0 table over it, one
+    compaction round, every key read back (the shape that decides whether table selection for a
+    compaction covers all overlapping tables)"""
+    rng = g.rng
+    t = g.next_tx
+
+    def txn(keys):
+        nonlocal t
+        g.emit("e2 begin %d rw" % t)
+        for k in keys:
+            if rng.random() < 0.3:
+                g.emit("e2 del %d %s" % (t, k))
+            else:
+                g.emit("e2 set %d %s %s" % (t, k, g.val()))
+        g.emit("e2 commit %d" % t)
+        t += 1
+        g.emit("e2 flush")
+
+    def sub(minlen=1):
+        lo = rng.randrange(len(LKEYS))
+        hi = rng.randrange(lo, len(LKEYS))
+        return LKEYS[lo:hi + 1]
+
+    if rng.random() < 0.6:
+        # deliberate shape: deeper table D, older wide level-0 table W overlapping D, newer narrow
+        # level-0 table N strictly inside W and beside D (mirrored half of the time)
+        ks = LKEYS if rng.random() < 0.5 else LKEYS[::-1]
+        b = rng.randint(0, 3)
+        a = rng.randint(0, b)
+        e = rng.randint(b + 1, 5)
+        f = rng.randint(e, 6)
+        d = rng.randint(f + 1, 7)
+        c = rng.randint(0, b)
+        rng_keys = lambda i, j: sorted(ks[i:j + 1])
+        txn(rng_keys(a, b))
+        g.emit("e2 compact 0")
+        txn(rng_keys(c, d))
+        txn(rng_keys(e, f))
+        g.emit("e2 compact 0")
+        g.emit("e2 begin %d ro" % t)
+        for k in LKEYS:
+            g.emit("e2 get %d %s" % (t, k))
+        g.emit("e2 scan %d - ~ f" % t)
+        g.emit("e2 drop %d" % t)
+        t += 1
+    for rep in range(rng.randint(1, 2)):
+        for _ in range(rng.randint(1, 2)):
+            txn(sub())
+            g.emit("e2 compact 0")
+            if g.lc > 2 and rng.random() < 0.3:
+                g.emit("e2 compact 1")
+        for _ in range(rng.randint(2, 3)):
+            txn(sub())
+        g.emit("e2 compact %d" % rng.choice([0, 0, 0, 1]))
+        g.emit("e2 begin %d ro" % t)
+        for k in LKEYS:
+            g.emit("e2 get %d %s" % (t, k))
+        g.emit("e2 scan %d - ~ f" % t)
+        g.emit("e2 drop %d" % t)
+        t += 1
+    g.next_tx = t
+
+
+PROFILES.append(dict(name="stacked-tables", opts=["lc=2", "lc=3", "lc=4"], weights=dict(PHYS, write=10), keys=LKEYS,
+                     prologue=stacked, length=(5, 20)))
+PROFILES.append(dict(name="layout-shapes", opts=["lc=2", "lc=3", "lc=4", "lc=3,bs=64"], weights=dict(PHYS, write=20), keys=LKEYS,
+                     prologue=layered, length=(10, 40)))
+
+
 def nontrivial(lines, exp):
     ops = [l.split()[1] for l in lines]
     return ("compact" in ops or "flush" in ops) and any(o in ops for o in ("del", "sdel")) and ops.count("commit") >= 2
 
 
 def explore(ctx):
-    r = G.explore_profiles(ctx, "C06", PROFILES, nontrivial, n_quick=80, n_thorough=800)
+    r = G.explore_profiles(ctx, "C06", PROFILES, nontrivial, n_quick=300, n_thorough=3000)
     r["coverage"]["rule"] = ("random API histories (sets, hard/soft deletes, replaces, re-insertions) with rotate / flush / "
                              "per-level compaction / auto compaction / clean reopen placed between operations, over an option grid "
                              "(level count 1-4, tiny blocks and index partitions, bloom on/off, compression, small cache, vlog); "
